@@ -284,12 +284,21 @@ def mk_values(max_ops, thorough, part, nparts):
             out = out.replace('@%d@' % i, '(-%s)' % txt if v < 0 else txt)
         return out
 
+    def floor_args(t, acc):
+        if z3.is_app(t):
+            if t.decl().kind() == z3.Z3_OP_TO_INT:
+                acc.append(t.arg(0))
+            for i in range(t.num_args()):
+                floor_args(t.arg(i), acc)
+        return acc
+
     def solve(skel, wrong=False):
         vars_, got, exp = encode(skel, wrong)
         s = z3.Solver()
         s.set('timeout', 20000)
-        for d in got.div + exp.div:
-            s.add(d != 0)
+        side = [d != 0 for d in got.div + exp.div]
+        for c in side:
+            s.add(c)
         s.add(got.t != exp.t)
         # prefer small integer operands so that a model replays exactly in floating point
         s.push()
@@ -299,6 +308,26 @@ def mk_values(max_ops, thorough, part, nparts):
         if str(r) != 'sat':
             s.pop()
             r = s.check()
+        if str(r) == 'unknown':
+            # floor() of two differently associated but equal real terms: prove the arguments equal first (pure NRA,
+            # no floor), then give the proven equalities to the main query as lemmas (congruence does the rest)
+            ga, ea = floor_args(got.t, []), floor_args(exp.t, [])
+            lemmas = []
+            for x in ga:
+                for y in ea:
+                    if x.eq(y):
+                        continue
+                    q = z3.Solver()
+                    q.set('timeout', 10000)
+                    for c in side:
+                        q.add(c)
+                    q.add(x != y)
+                    if str(q.check()) == 'unsat':
+                        lemmas.append(x == y)
+            if lemmas:
+                for l in lemmas:
+                    s.add(l)
+                r = s.check()
         res = str(r)
         model = None
         if res == 'sat':
@@ -382,7 +411,7 @@ def mk_values(max_ops, thorough, part, nparts):
 
     wit = ['1+2', '1 + 2', '2 * 3', '2 * 3 + 1', '-2 * 3 + 1', '2 * -3 + 1', '5 / 2', '5 \\ 2',
            '2 * (3 + 1)', '(3 * (1+2)) * 2', '3 * -(1 + 2)', '(1 + 2) * 3', '6/-2', '--6']
-    return {'fn': fn, 'direct': direct, 'witnesses': [{'expr': w} for w in wit],
+    return {'fn': fn, 'direct': direct, 'solve': solve, 'witnesses': [{'expr': w} for w in wit],
             'assumptions': ['operands range over all reals; every divisor != 0',
                             'skeleton family: <=%d binary operators, %s' % (
                                 max_ops, 'all parenthesisations of <=2 groups, signs on any subset'
